@@ -49,6 +49,12 @@ def _case(c):
         try:
             p = mido.Parser()
             for ch in pieces:
+                if isinstance(ch, str):
+                    import time as _t
+                    _t.sleep(float(ch.split()[1]))
+                    continue
+                if ch and ch[0] == 'B':
+                    ch = bytes(ch[1])        # one bytes object
                 p.feed(ch)
             cc = [msgs.canon_msg(m) for m in p]
         except Exception as e:
@@ -120,6 +126,21 @@ def gen(ck):
         M = msgs.encode_ref(tt, d)
         P = [b for u in units for b in u]
         cases.append((P, M, [msgs.canon_vals(tt, d)], units + [M]))
+    # a sysex with thousands of real-time bytes inside (as list and as one bytes object), and a message whose two halves
+    # are fed with a real pause in between
+    for nrt in ([1500, 4000] if not thorough else [999, 1000, 1500, 4000, 20000]):
+        payload = [rng.randint(0, 127) for _ in range(50)]
+        body = []
+        for i in range(nrt):
+            body.append(rng.choice(rts[:6]))
+            if i % 40 == 0 and payload:
+                body.append(payload[(i // 40) % len(payload)])
+        data = [b for b in body if b < 0x80]
+        expect = [parsing.RT_TYPE[b] for b in body if b in parsing.RT_TYPE] + [msgs.canon_vals('sysex', {'data': data})]
+        cases.append(([0x90, 1], [0xf0] + body + [0xf7], expect, [['B', [0x90, 1]], ['B', [0xf0] + body + [0xf7]]]))
+    cases.append(([0xf0, 1, 0xf8], [2, 0xf7, 0x80, 5, 6], ['sysex 1 2'.replace('sysex 1 2', msgs.canon_vals('sysex', {'data': (1, 2)})),
+                                                             msgs.canon_vals('note_off', {'channel': 0, 'note': 5, 'velocity': 6})],
+                  [[0xf0, 1, 0xf8], 'PAUSE 2.3', [2, 0xf7, 0x80], 'PAUSE 1.2', [5, 6]]))
     # concatenations
     for _ in range(2000 if not thorough else 30000):
         ms = [msgs.random_message(rng, max_sysex=5) for _ in range(rng.randint(1, 12))]
